@@ -17,6 +17,7 @@ import SkVerif.Lemmas.SeriesPhase
 import SkVerif.Lemmas.SeriesShift
 import SkVerif.Lemmas.SeriesMachine
 import SkVerif.Lemmas.HampelPos
+import SkVerif.Lemmas.SeriesRefit
 namespace SkVerif.C13
 open SkVerif SkVerif.ST SkVerif.Lem.ST
 
@@ -485,7 +486,35 @@ theorem hampel_index_preserved (cfg : HampelCfg) (z out : Series) (h : hampel cf
   hampel_labels cfg z out h
 
 -- =============================================================================================
+-- 8. a re-fit forgets the object's history (re-used objects: other data, set_params, fit again)
+
+/-- Two objects of the same class with the same parameters — one freshly constructed, the other used
+before on other data / with other parameters and re-configured with `set_params` — give the same
+outcome for `fit` on the same data, and if it succeeds every later history of calls returns the same
+results on both (`SameParams`: same constructor parameters; nothing is assumed about what either
+object remembered). -/
+theorem refit_forgets_history (reg : Reg) (a b : TState) (h : SameParams a b) (inp : Input) (d : FitData)
+    (ops : List Op) (hok : (step reg a (.fit inp d)).2 = .ok) :
+    run reg a (.fit inp d :: ops) = run reg b (.fit inp d :: ops) := by
+  obtain ⟨h1, h2⟩ := fit_forgets reg a b h inp d
+  simp only [run, step] at hok ⊢
+  rw [← h1]
+  simp only [List.cons.injEq, true_and]
+  exact obsEq_run reg _ _ (h2 hok) ops
+
+/-- a failing `fit` fails on both alike -/
+theorem refit_same_outcome (reg : Reg) (a b : TState) (h : SameParams a b) (inp : Input) (d : FitData) :
+    (step reg a (.fit inp d)).2 = (step reg b (.fit inp d)).2 :=
+  (fit_forgets reg a b h inp d).1
+
+-- =============================================================================================
 -- non-vacuity: concrete objects meeting the hypotheses
+
+-- a fitted passthrough=False→True re-configured object vs a fresh one
+example : SameParams (.pass (.des witnessDes) (.des witnessDes) true true true)
+    (.pass (.des witnessDes) (.des { sp := 2, mult := false, cond := false }) false true false) := ⟨rfl, rfl⟩
+example : SameParams (.des witnessDes) (.des { sp := 2, mult := false, cond := false }) := ⟨rfl, rfl, rfl⟩
+
 
 example : DesWF witnessDes := ⟨by decide, by intro seas h; simp [witnessDes] at h; subst h; rfl⟩
 example : PhaseRef witnessDes 0 [1, -1] :=
